@@ -194,7 +194,7 @@ class C13(Check):
             services = {s: {int(k): v for k, v in sv.items()} for s, sv in srv.services.items()}
         except Exception:  # noqa: BLE001
             services = {1: {0x10: [1]}}
-        plan["ops"] = gen_history(rng, services, rng.choice([1, 5, 20, 40, 80]))
+        plan["ops"] = gen_history(rng, services, rng.choice([1, 5, 20, 40, 80] if tier == "quick" else [20, 80, 150, 300]))
         return plan
 
     def simplify(self, plan: dict[str, Any]) -> Any:
